@@ -58,3 +58,19 @@ Theorem C15_unbounded_len_exact :
   st_coll (reach P ops) = CFu u -> rem u = total (groups u).
 Proof. exact fu_len_exact. Qed.
 Print Assumptions C15_unbounded_len_exact.
+
+(** the observers themselves ([observe] is the model of len / is_empty / capacity / size_hint /
+    is_terminated): in every reachable state of every history they report the state - [len] is
+    the number of futures held plus (ordered queues) the outputs parked for their turn,
+    [is_empty] and [is_terminated] say exactly whether that number is zero, [capacity] is never
+    below [len], the collections' [size_hint] is exact, merges report (0, None), and
+    for_each_concurrent is terminated exactly when its upstream is gone and nothing runs *)
+From FB Require Import Step Reach LedgerProofs TokenLedger ObserveProofs.
+Theorem C15_observers_report_the_state :
+  forall (P : params), params_ok P -> forall (ops : list op),
+  match observe P (st_coll (reach P ops)) with
+  | Some ob => obs_ok (st_coll (reach P ops)) ob
+  | None => True
+  end.
+Proof. exact observers_report_the_state. Qed.
+Print Assumptions C15_observers_report_the_state.
